@@ -514,3 +514,23 @@ func lemmaRoundTripWatchUnwatch() (e1, e2, e3, e4 error, pos, n int) {
 //@   callspec ReadInto ensures regwf()
 //@   requires rwf(r) && regwf()
 //@   modifies r.pos, r.err
+
+// The remoting envelope (C12: "the envelope's system flag, sender and receiver survive unchanged") is written as
+// [payload with 4-byte length][message name][system flag][sender address][sender path][receiver address][receiver
+// path] by EncodeEnvelopWithRemoting (WriteBytesWithLength / SerializeRemotingMessage, then ONE WriteFrom) and read
+// back by DecodeEnvelopWithRemoting with ONE ReadInto of the seven fields. This lemma runs exactly those two calls
+// of the real writer / reader on arbitrary field values.
+//@ func lemmaRoundTripEnvelopeFields
+//@   requires len(payload) <= 4294967295 && len(name) <= 4294967295 && len(sa) <= 4294967295 && len(sp) <= 4294967295 && len(ra) <= 4294967295 && len(rp) <= 4294967295
+//@   ensures  werr == nil && rerr == nil && pos == n
+//@   ensures  name2 == name && system2 == system && sa2 == sa && sp2 == sp && ra2 == ra && rp2 == rp
+//@   ensures  len(payload2) == len(payload) && forall i mathint :: 0 <= i && i < len(payload) ==> payload2[i] == payload[i]
+func lemmaRoundTripEnvelopeFields(payload []byte, name string, system bool, sa, sp, ra, rp string) (payload2 []byte, name2 string, system2 bool, sa2, sp2, ra2, rp2 string, werr, rerr error, pos, n int) {
+	w := NewWriter()
+	w.WriteBytesWithLength(payload, LengthSize4)
+	werr = w.WriteFrom(name, system, sa, sp, ra, rp)
+	data := w.Bytes()
+	r := NewReader(data)
+	rerr = r.ReadInto(&payload2, &name2, &system2, &sa2, &sp2, &ra2, &rp2)
+	return payload2, name2, system2, sa2, sp2, ra2, rp2, werr, rerr, r.Pos(), len(data)
+}
